@@ -18,7 +18,7 @@ import (
 
 func c15Years(e *core.Env) []int {
 	var ys []int
-	if !e.Quick() {
+	if !e.Quick() || e.Prop == "C15" { // the complete calendar takes ~15 s: the quick tier of C15 is exhaustive as well
 		for y := 0; y <= 9999; y++ {
 			ys = append(ys, y)
 		}
@@ -65,13 +65,13 @@ func init() {
 		Level: "exploration",
 		Rule: "cases are (a) every calendar date of the explored years, each checked for weekday, ISO week, quarter, the week/month/quarter/year period " +
 			"(bounds, containment, previous period, bucket hash) and (b) every pattern string YYYY, YYYY-MM (00-99), YYYY-Qq (0-9), YYYY-Www/YYYY-Ww (0-99) of those years plus malformed shapes; " +
-			"thorough = all years 0000-9999 (exhaustive), quick = one seed-placed 400-year Gregorian cycle + edge years. " +
+			"both tiers enumerate all years 0000-9999 (exhaustive: 3 652 425 dates, 2.5 M pattern strings). " +
 			"non-trivial & distinct = a (date) at which at least one of week/month/quarter/year period changes w.r.t. the previous day, or a pattern string that denotes an existing period; counted by hash set",
 		Assumptions: []string{
 			"reference calendar: Hinnant's days-from-civil algorithms in harness/ref/calendar.go, self-checked against Go's time package at start-up",
 			"periods sticking out of 0000-01-01..9999-12-31 are expected clamped to that range; Previous() is only demanded where the previous period is representable",
 		},
-		Exhaustive: func(tier string) bool { return tier == "thorough" },
+		Exhaustive: func(tier string) bool { return true },
 		Run:        runC15,
 	})
 }
